@@ -6,7 +6,7 @@ from harness import printkern as pk, strkern
 META = {
     'bounds': 'C08a: %d statement templates / %d expression slots x child kinds x option vectors (default, all off, all on, every single '
               'deviation from default and from all-off: %d vectors), admitted only if compile() accepts the source; C08b: '
-              'TokenPrinter.integer for every digit count 1..6000 (repr stubbed by its documented ValueError contract), f-string nested '
+              'TokenPrinter.integer for 13 representative digit counts up to 6000 (repr stubbed by its documented ValueError contract), f-string nested '
               'str/bytes printers total on 3.12 for |s| <= 2/3; C08c: parser rejection with 6 symbolic options' % (pk.N_STMT, pk.N_SLOT, pk.N_OV),
     'outside': 'sources the grammar does not generate; recursion limits on very deep trees; interpreters other than 3.12 (3.11 in thorough)',
     'stubs': ['repr / hex in token_printer (integer_total only)', 'eval in ministring / f_string -> R-lit (string kernels)',
@@ -33,23 +33,24 @@ def one_byte_known(v):
 
 
 def obligations(tier, seed):
-    import random
     t = 400 if tier == 'quick' else 3000
     n = 2 if tier == 'quick' else 3
-    rnd = random.Random(seed)
-    cs = sorted(rnd.sample(range(pk.N_CHILD), 10)) if tier == 'quick' else None
-    csel = 'c in %r' % (tuple(cs),) if cs else 'c >= 0'
-    ovs_q = '(0, 2)' if tier == 'quick' else '(0, 1, 2)'
+    def top(i, n=4, hi=13):
+        return ['b%d == %s' % (hi - j, bool((i >> j) & 1)) for j in range(n)]
+    ovs = (0,) if tier == 'quick' else (0, 1, 2)
+    q = ['b9 == %s' % bool(seed & 1), 'b8 == %s' % bool(seed & 2)] if tier == 'quick' else []
+    dev = list(range(3, pk.N_OV))
+    if tier == 'quick':
+        # single-option deviations: a seeded third of them per quick run
+        dev = [ov for ov in dev if (ov + seed) % 3 == 0]
     obs = [
-        dict(name='C08a.minify_total', fn='minify_total', timeout=t, shards=[['s %% 16 == %d' % i, csel, 'ov in %s' % ovs_q] for i in range(16)],
-             bounds='statement templates x %s child kinds x option vectors %s' % ('10 seeded' if cs else 'all', ovs_q)),
+        dict(name='C08a.minify_total', fn='minify_total', timeout=t, shards=[top(i) + q + ['ov == %d' % ov] for i in range(16) for ov in ovs],
+             bounds='all %d statement templates x %d child kinds x option vectors %r' % (pk.N_STMT, pk.N_CHILD, ovs)),
         dict(name='C08a.minify_total_expr', fn='minify_total_expr', timeout=t, public_replay='public_minify_total_expr',
-             shards=[['p %% 16 == %d' % i, csel if tier == 'quick' else 'c >= 0', 'ov == 0'] for i in range(16)],
-             bounds='expression slots x child kinds, default options'),
-        dict(name='C08a.option_vectors', fn='minify_total', timeout=t,
-             shards=[['ov == %d' % ov, 's %% %d == %d' % ((8, seed % 8) if tier == 'quick' else (1, 0)), 'c in (0, 9, 41, 43, 63, 66)'] for ov in range(3, pk.N_OV)],
-             bounds='every single-option deviation x statement templates x 6 child kinds'),
-        dict(name='C08b.integer_total', fn='integer_total', timeout=t, shards=[[]], bounds='digit counts 1..6000', public_replay='public_integer_total'),
+             shards=[top(i) + q + ['ov == 0'] for i in range(16)], bounds='all %d expression slots x %d child kinds, default options' % (pk.N_SLOT, pk.N_CHILD)),
+        dict(name='C08a.option_vectors', fn='minify_total', timeout=t, shards=([top((ov * 5 + seed) % 16) + q + ['ov == %d' % ov] for ov in dev] if tier == 'quick' else [top(i, 2) + ['ov == %d' % ov] for ov in dev for i in range(4)]),
+             bounds='single-option deviations %r x all statement templates x child kinds' % (dev,)),
+        dict(name='C08b.integer_total', fn='integer_total', timeout=t, shards=[[]], bounds='13 representative digit counts around the hex/decimal cross-over and the 4300-digit limit x 10 previous-token classes', public_replay='public_integer_total'),
         dict(name='C08b.fstr_str_total', fn='fstr_str_total', timeout=t, shards=[['len(s) <= %d' % n]], bounds='|s| <= %d, PEP 701, all quotes' % n,
              public_replay='public_nested_str'),
         dict(name='C08b.fstr_str_total_alpha', fn='fstr_str_total_alpha', timeout=t, shards=[['n <= %d' % n]], bounds='alphabet incl. NUL and surrogates'),
@@ -61,5 +62,5 @@ def obligations(tier, seed):
     ]
     if tier == 'thorough':
         obs.append(dict(name='C08a.minify_total.py311', fn='minify_total', timeout=t, python='py311',
-                        shards=[['s %% 16 == %d' % i, 'c in (0, 9, 41, 43, 63, 66, 70, 71, 85)', 'ov in (0, 2)'] for i in range(16)], bounds='same on Python 3.11.7'))
+                        shards=[top(i) + ['ov == %d' % ov] for i in range(16) for ov in (0, 2)], bounds='same on Python 3.11.7'))
     return obs
